@@ -54,7 +54,10 @@ Example y_loss :
   master_of (y_at 104) 1 = Some 10 /\ rels (y_at 104) !! 10 = None /\
   master_of (fold_left p2_step [y_l 104; y_l 105; y_l 106; y_l 107] (y_at 104)) 1 = Some 11 /\
   term_of (y_at 104) 1 = 1 /\ term_of (fold_left p2_step [y_l 104; y_l 105; y_l 106; y_l 107] (y_at 104)) 1 = 2.
-Proof. repeat split; vm_compute; reflexivity. Qed.
+Proof.
+  split; [vm_compute; reflexivity|]. split; [vm_compute; reflexivity|]. split; [vm_compute; reflexivity|].
+  split; [vm_compute; reflexivity|]. vm_compute; reflexivity.
+Qed.
 
 (* step 109: the configuration reconciler re-pushes the applied values in term 2 and marks the target synchronised
    (hypotheses of C10_no_change_before_resync for a re-push, C10_aterm_moves_by_sync, C10_resync_completes) *)
@@ -84,4 +87,9 @@ Qed.
 Example y_chain : exists (P Q : Prop2) (C : Cfg),
   props (y_at 98) !! (1, 1) = Some P /\ props (y_at 98) !! (1, 2) = Some Q /\ cfgs (y_at 98) !! 1 = Some C /\
   p_init P = Some Done /\ p_init Q = Some Done /\ p_prev P = 0 /\ p_prev Q = 1 /\ p_next P = 2 /\ c_proposed C = 2.
-Proof. eexists _, _, _. repeat split; vm_compute; reflexivity. Qed.
+Proof.
+  eexists _, _, _.
+  split; [vm_compute; reflexivity|]. split; [vm_compute; reflexivity|]. split; [vm_compute; reflexivity|].
+  split; [vm_compute; reflexivity|]. split; [vm_compute; reflexivity|]. split; [vm_compute; reflexivity|].
+  split; [vm_compute; reflexivity|]. split; [vm_compute; reflexivity|]. vm_compute; reflexivity.
+Qed.
